@@ -9,11 +9,13 @@ CONSTANTS
   GcProtectsBuilding = TRUE
   MaxFaults = 1
   StoreMetaFirst = FALSE
+  KillWaits = TRUE
 INVARIANT CrashSafe
 INVARIANT CrashDurable
+INVARIANT NoCommitLost
 INVARIANT OrphanIsF4Class
 INVARIANT GcComplete
-INVARIANT GcTight
+PROPERTY GcTight
 INVARIANT NeverDeletesNeeded
 INVARIANT NeverDeletesBuilding
 INVARIANT LemmaSafe
